@@ -18,7 +18,8 @@ LEVEL = "exploration"
 RULE = (
     "Stateful: one configuration object (C07 generator + process-inject / BeaconGate / DNS extras) and histories of "
     "<= 16 uses in any order with repetition: read each of the four views, settings_map variants and convenience "
-    "properties; C2Http(...) with each key variant; HttpBeaconClient.run(dry_run=True); C2Profile.from_beacon_config "
+    "properties; C2Http(...) with each key variant; HttpBeaconClient.run(dry_run=True) with any subset of its optional "
+    "overrides (host_header, user_agent, sleeptime, jitter, domain, port, scheme ...); C2Profile.from_beacon_config "
     "(+as_text); transform/recover on any decoder created so far; item assignment on each mapping. Invariant after "
     "every step: a deep snapshot (views, config_block, settings_tuple) equals the initial one, and each operation's "
     "result equals the same operation on a FRESH configuration built from the same bytes; assignments raise "
@@ -98,7 +99,8 @@ def do_operation(c2mod, profmod, cfgobj, decoders, op, record=True):
 
         with patched_client_module():
             cl = HttpBeaconClient()
-            cl.run(cfgobj, dry_run=True, beacon_id=op[1], user="u", computer="c", process="p", internal_ip="10.0.0.1", arch="x86", pid=4242)
+            opts = dict(op[2]) if len(op) > 2 and op[2] else {}
+            cl.run(cfgobj, dry_run=True, beacon_id=op[1], user="u", computer="c", process="p", internal_ip="10.0.0.1", arch="x86", pid=4242, **opts)
         if record:
             decoders.append(cl.c2http)
         return norm([decoder_state(cl.c2http), cl.get_uri, cl.submit_uri, bytes(cl.metadata.dumps()), cl.sleeptime, cl.jitter, cl.user_agent])
@@ -238,9 +240,25 @@ def machine(stats, rec):
         def decoder(self, variant):
             self.do(("decoder", variant))
 
-        @rule(bid=st.sampled_from([2, 1000]))
-        def client(self, bid):
-            self.do(("client", bid))
+        @rule(
+            bid=st.sampled_from([2, 1000]),
+            opts=st.fixed_dictionaries(
+                {},
+                optional={
+                    "host_header": st.sampled_from(["override.example.com", "Host: other.example.com"]),
+                    "user_agent": st.just("OverrideAgent/1.0"),
+                    "sleeptime": st.sampled_from([0, 5000]),
+                    "jitter": st.sampled_from([0, 50]),
+                    "domain": st.just("198.51.100.7"),
+                    "port": st.just(8443),
+                    "scheme": st.sampled_from(["http", "https"]),
+                    "high_integrity": st.booleans(),
+                    "barch": st.sampled_from(["x86", "x64"]),
+                },
+            ),
+        )
+        def client(self, bid, opts):
+            self.do(("client", bid, opts))
 
         @rule(text=st.booleans())
         def profile(self, text):
